@@ -372,8 +372,8 @@ func c16ChanAgreement(c *Ctx, ctors []*Func) {
 	c.fn(pred)
 	// call-time: channel types the closure takes the result as
 	errT := &rT{kind: "error", implErr: true}
-	var handled []*rT       // identical match required
-	var convertTo []*rT     // Convert(T) targets (any probe convertible to T is handled when T is asserted)
+	var handled []*rT   // identical match required
+	var convertTo []*rT // Convert(T) targets (any probe convertible to T is handled when T is asserted)
 	lits := w.Lits(ctor)
 	for _, lit := range lits {
 		ast.Inspect(lit.Body, func(n ast.Node) bool {
@@ -400,11 +400,30 @@ func c16ChanAgreement(c *Ctx, ctors []*Func) {
 					return true
 				}
 				at := rtFromGoType(t)
-				// x.Convert(T).Interface().(A)
+				// x.Convert(T).Interface().(A), possibly through locals assigned once
 				conv := false
-				if call, ok := unparen(q.X).(*ast.CallExpr); ok {
+				lx := w.expander(lit)
+				resolve := func(e ast.Expr) ast.Expr {
+					for d := 0; d < 4; d++ {
+						id, ok := unparen(e).(*ast.Ident)
+						if !ok {
+							break
+						}
+						v, isVar := info.Uses[id].(*types.Var)
+						if !isVar || v.IsField() {
+							break
+						}
+						rhs, idx, _, okd := lx.def(v)
+						if !okd || rhs == nil || idx >= 0 {
+							break
+						}
+						e = rhs
+					}
+					return unparen(e)
+				}
+				if call, ok := resolve(q.X).(*ast.CallExpr); ok {
 					if sel, ok := unparen(call.Fun).(*ast.SelectorExpr); ok && sel.Sel.Name == "Interface" {
-						if inner, ok := unparen(sel.X).(*ast.CallExpr); ok {
+						if inner, ok := resolve(sel.X).(*ast.CallExpr); ok {
 							if isel, ok := unparen(inner.Fun).(*ast.SelectorExpr); ok && isel.Sel.Name == "Convert" && len(inner.Args) == 1 {
 								ev := &rtEval{w: w, info: info, env: map[types.Object]*rT{}}
 								if tt := ev.typeExpr(inner.Args[0]); tt != nil && rtIdentical(tt, at) {
